@@ -86,6 +86,7 @@ func TestWorker(t *testing.T) {
 		Strategies: map[string]int{}, RunHashes: map[string]string{}}
 	start := time.Now()
 	pairs := map[uint64]struct{}{}
+	curT = t
 	warmup(t)
 
 	runOne := func(idx int, c *Case) {
@@ -101,6 +102,9 @@ func TestWorker(t *testing.T) {
 		out.Evaluations += int64(ev.Evaluations)
 		out.Inconclusive += ev.Inconclusive
 		out.Strategies[c.Sim.Strategy]++
+		if res.Sim.Leaked > 0 {
+			out.Probes["leaked_goroutines"] += res.Sim.Leaked
+		}
 		for k, v := range res.Probes {
 			out.Probes[k] += v
 		}
